@@ -422,6 +422,12 @@ def mon_c03_engine(case, verdict, chk):
 def _mon_c03_engine(case, verdict, chk):
     """the returned output is producible from what the steps produced and carries the data its expressions denote"""
     res = case.get("result", {})
+    if not res.get("returned") and "panic" not in case and case.get("cancel_after_ms", -1) < 0 \
+            and not any(b.get("outcome") == "hang" for b in (case.get("behaviours") or {}).values()):
+        # every step ends by itself, so the run has an outcome: an output or an error; it returned neither within 25 s
+        chk.violation("C03:no-result", "no step is never-ending, yet Execute returned neither an output nor an error within 25 s",
+                      {"kind": "impl-counterexample", "case": slim(case), "dump": case.get("dump")})
+        return
     if not res.get("returned") or case.get("cancel_after_ms", -1) >= 0:
         return
     data = produced_at(case)
@@ -459,6 +465,22 @@ def mon_c01_engine(case, verdict, chk):
     elif res.get("returned") and not res.get("output_id") and not res.get("err") and "panic" not in case:
         chk.violation("C01:neither-output-nor-error", "Execute returned neither an output nor an error",
                       {"kind": "impl-counterexample", "case": slim(case)})
+
+
+def result_shape(pid):
+    """a run that returns, returns exactly one of: a declared output, an error (also after the caller cancelled it)"""
+    def mon(case, verdict, chk):
+        res = case.get("result", {})
+        if "panic" in case or not res.get("returned"):
+            return
+        if res.get("output_id") and res.get("err"):
+            chk.violation(pid + ":output-and-error", "Execute returned an output together with an error",
+                          {"kind": "impl-counterexample", "case": slim(case)})
+        elif not res.get("output_id") and not res.get("err"):
+            chk.violation(pid + ":neither-output-nor-error", "Execute returned neither an output nor an error"
+                          + (" (the caller had cancelled the run after %s ms)" % case.get("cancel_after_ms") if case.get("cancel_after_ms", -1) >= 0 else ""),
+                          {"kind": "impl-counterexample", "case": slim(case)})
+    return mon
 
 
 def mon_c05_engine(case, verdict, chk):
@@ -530,6 +552,7 @@ def mon_c06_cancel(case, verdict, chk):
         chk.violation("C06:no-return-after-cancel", "Execute did not return after its context was cancelled",
                       {"kind": "impl-counterexample", "case": slim(case), "dump": case.get("dump")})
         return
+    result_shape("C06")(case, verdict, chk)
     if not cancel:
         return  # the run finished before the cancellation fired
     cseq = cancel[0]["seq"]
